@@ -99,7 +99,8 @@ QUICK_MICRO = ["m03_star", "m05_opt", "m07_nullable_rule", "m11_deep", "e02_cond
                "r01_rename", "n02_marker_nested", "n04_marker_loop", "t02_return_cond", "p01_pred_alt",
                "p06_assert", "p07_pred_nullable", "x03_right1", "x04_right2", "x05_prefix", "x07_mixed", "x08_call", "x13_marker",
                "q01_parts", "q02_parts_shared",
-               "k01_noskip", "o03_choice_rule", "o04_choice_in_loop"]
+               "k01_noskip", "o03_choice_rule", "o04_choice_in_loop", "o05_choice_loop_alt", "o06_choice_elide_rename",
+               "o09_choice_commit_rule", "o11_choice_star"]
 QUICK_SKEL = {"fe", "m03_star", "k01_noskip", "q01_parts", "o03_choice_rule", "ex_json"}
 QUICK_EX = ["calc", "json", "l", "toml"]
 
